@@ -96,6 +96,28 @@ Theorem C16_wots_digits_below_w :
 Proof. exact wotsChecksum_digit. Qed.
 Print Assumptions C16_wots_digits_below_w.
 
+(* === support functions ================================================= *)
+
+(* base_2^b (FIPS 205 Algorithm 4): the digits are the first outLen*b bits of x
+   as a big-endian base-2^b number, each below 2^b — for every width up to 25
+   bits, although the Go loop keeps its accumulator in a wrapping uint32 *)
+Theorem C16_base2b_value :
+  forall x b out, wfb x -> (b <= 25)%nat -> (out * b <= 8 * length x)%nat ->
+    digits_val b (base2b x b out) = be_val x / 2 ^ N.of_nat (8 * length x - out * b)
+    /\ Forall (fun d => d < 2 ^ N.of_nat b) (base2b x b out) /\ length (base2b x b out) = out.
+Proof. exact base2b_value. Qed.
+Print Assumptions C16_base2b_value.
+
+Theorem C16_toInt_big_endian :
+  forall x k, (k <= 8)%nat -> (k <= length x)%nat -> wfb x -> toInt x k = be_val (firstn k x).
+Proof. exact toInt_be_val. Qed.
+Print Assumptions C16_toInt_big_endian.
+
+Theorem C16_toInt_toByte :
+  forall v k, (k <= 8)%nat -> toInt (toByte v k) k = (v mod 2 ^ 32) mod 256 ^ N.of_nat k.
+Proof. exact toInt_toByte. Qed.
+Print Assumptions C16_toInt_toByte.
+
 (* === the layers, as coded (mutable address included) ==================== *)
 
 Theorem C16_chain_compose :
@@ -123,6 +145,16 @@ Theorem C16_xmss_pkFromSig_sign :
 Proof. exact xmss_complete. Qed.
 Print Assumptions C16_xmss_pkFromSig_sign.
 
+(* FORS: for every digest the public key recomputed from forsSign's output is
+   Tl over the k roots (node i at height a) of the FORS trees *)
+Theorem C16_fors_pkFromSig_sign :
+  forall P HS, hashes_ok P HS -> forall md sk pk ad ad1,
+    a_typ ad = T_FORSTREE -> eq23 ad1 ad ->
+    fst (forsPkFromSig P HS (fst (forsSign P HS md sk pk ad)) md pk ad1)
+    = forsPkS P HS (a_layer ad) (a_tree ad) (a_kp ad) sk pk.
+Proof. exact fors_complete. Qed.
+Print Assumptions C16_fors_pkFromSig_sign.
+
 (* hypertree: htVerify accepts htSign against the root keygen computes, for
    every in-range (idxTree, idxLeaf) *)
 Theorem C16_ht_verify_sign :
@@ -145,12 +177,14 @@ Theorem C16_threaded_equals_fips_shape :
        fst (forsSign P HS md sk pk ad) = forsSignS P HS (a_layer ad) (a_tree ad) (a_kp ad) (base2b md (p_a P) (p_k P)) sk pk) /\
     (forall sig md pk ad, a_typ ad = T_FORSTREE ->
        fst (forsPkFromSig P HS sig md pk ad) = forsPkFromSigS P HS (a_layer ad) (a_tree ad) (a_kp ad) (base2b md (p_a P) (p_k P)) sig pk) /\
+    (forall sk pk, keygenRoot P HS sk pk = pkRootS P HS sk pk) /\
     (forall msg sk pk idxTree idxLeaf, htSign P HS msg sk pk idxTree idxLeaf = htSignS P HS msg sk pk idxTree idxLeaf) /\
     (forall msg sigHT pk idxTree idxLeaf root, htVerify P HS msg sigHT pk idxTree idxLeaf root = htVerifyS P HS msg sigHT pk idxTree idxLeaf root).
 Proof.
   intros P HS. repeat split; intros.
   - apply xmssNode_spec. - apply xmssSign_spec. - apply xmssPkFromSig_spec.
   - apply forsSign_spec; auto. - apply forsPkFromSig_spec; auto.
+  - unfold keygenRoot, pkRootS. rewrite (proj1 (xmssNode_spec _ _ _ _ _ _ _)). reflexivity.
   - apply htSign_spec. - apply htVerify_spec.
 Qed.
 Print Assumptions C16_threaded_equals_fips_shape.
